@@ -221,7 +221,8 @@ class NetworkGraph(AbstractBaseIR):
                 if not scalar_edges:
                     continue
 
-                delays, spreads, nodes, add_delay, n_slots = self._collect_delays_from_edges(scalar_edges)
+                delays, spreads, nodes, add_delay, n_slots = self._collect_delays_from_edges(scalar_edges,
+                                                                                            dde_approx=dde_approx)
 
                 # add synaptic buffer to output variables with delay
                 if add_delay:
@@ -317,7 +318,7 @@ class NetworkGraph(AbstractBaseIR):
 
         return edges_new
 
-    def _collect_delays_from_edges(self, edges):
+    def _collect_delays_from_edges(self, edges, dde_approx: int = 0):
         means, stds, nodes, counts = [], [], [], []
         for s, t, e in edges:
 
@@ -331,7 +332,9 @@ class NetworkGraph(AbstractBaseIR):
             n_slots = max(len(self.edges[s, t, e]['target_idx']), 1)
             if v is None or np.sum(v) == 0:
                 v = [0] * n_slots
-                discretize = True
+                # delays that are approximated by chains of ODEs (dde_approx) stay in time units: the rate of a chain is
+                # (number of stages) / (delay in time units)
+                discretize = not dde_approx
             else:
                 discretize = False
                 v = self._process_delays(v, discretize=discretize)
